@@ -228,10 +228,13 @@ fn clip(s: &str, n: usize) -> String {
     t.replace('\n', "\\n")
 }
 
-fn cmd_minimize(inp: &str, outp: &str, budget: usize) -> i32 {
+fn cmd_minimize(inp: &str, outp: &str, budget: usize, wall_cap: Option<u64>) -> i32 {
     let text = std::fs::read_to_string(inp).expect("read replay");
     let mut rf: ReplayFile = serde_json::from_str(&text).expect("parse replay");
     let mut m = minimize::Minimizer::new(&rf.violation, budget);
+    if let Some(c) = wall_cap {
+        m.wall_cap_s = m.wall_cap_s.min(c);
+    }
     // must fail to begin with
     let Some((v0, _)) = m.fails(&rf.plan) else {
         eprintln!("minimize: input does not fail (with the recorded kind) when re-run");
@@ -686,6 +689,7 @@ fn cmd_run(args: &[String]) -> i32 {
         }
     }
     let mut reported = 0u64;
+    let minimise_started = std::time::Instant::now();
     let mut known_hits: BTreeMap<String, u64> = BTreeMap::new();
     let mut violation_lines = Vec::new();
     let _ = std::fs::create_dir_all(&replay_dir);
@@ -700,7 +704,16 @@ fn cmd_run(args: &[String]) -> i32 {
             reported += 1;
             continue;
         }
-        let (stratum, i, v, plan) = &agg.viols[members[0]];
+        // representative: the member with the fewest calls (a long history is a poor witness
+        // when a three-call execution shows the same thing), first one among equals
+        let rep = *members
+            .iter()
+            .min_by_key(|m| {
+                let p = &agg.viols[**m].3;
+                p.threads.iter().map(|t| t.len()).sum::<usize>() + p.sentinel.len()
+            })
+            .unwrap_or(&members[0]);
+        let (stratum, i, v, plan) = &agg.viols[rep];
         let raw_path = format!("{replay_dir}/C11-{seed}-{stratum}{i}-c{cluster_no}.raw.json");
         let min_path = format!("{replay_dir}/C11-{seed}-{stratum}{i}-c{cluster_no}.json");
         let rf = ReplayFile {
@@ -720,10 +733,15 @@ fn cmd_run(args: &[String]) -> i32 {
         let st = if plan.engine == "free" {
             Err(std::io::Error::other("not minimised"))
         } else {
+            // the first clusters get the full budget; once eight minutes have gone into
+            // minimisation the rest get half a minute each
+            let cap = if minimise_started.elapsed().as_secs() > 480 { 30 } else { 240 };
             Command::new(&exe)
                 .arg("minimize")
                 .arg(&raw_path)
                 .arg(&min_path)
+                .arg("--wall-cap")
+                .arg(cap.to_string())
                 .status()
         };
         let mut final_path = None;
@@ -1025,7 +1043,8 @@ fn main() {
             (Some(a), Some(b)) => {
                 seams::install();
                 let budget = arg_val(&args, "--budget").and_then(|s| s.parse().ok()).unwrap_or(600);
-                cmd_minimize(a, b, budget)
+                let cap = arg_val(&args, "--wall-cap").and_then(|s| s.parse().ok());
+                cmd_minimize(a, b, budget, cap)
             }
             _ => 2,
         },
